@@ -292,6 +292,7 @@ func checkC13(c *Ctx) {
 	c13XHat(c)
 	st := bidx(c, "B-IDX", []*ssa.Function{f, c.Fn("sm2", "keXHat"), c.Fn("sm2", "BytesCombine"), c.Fn("sm2", "leftPad32")}, nil)
 	_ = st
+	c03IsOnCurve(c, "P-C03-formulas")
 }
 
 func c13XHat(c *Ctx) {
